@@ -7,6 +7,7 @@ Driver for C02.  `geomv_c02 judge` reads lines carrying the implementation's ans
                                                      y outer), status digit 0/1/2 per point
   sgrid <tag> <lo> <hi> <ex> <polygonal> => <digits> the same grid scaled by 2^ex (polygon already scaled)
   pt <tag> <xhex> <yhex> <polygonal>   => <digit>    one float point (exact dyadic value is judged)
+  hist <flav> <lo> <hi> <P1> | <P2>    => <d1> <d2> <d3>  one polygon object: query as P1, changed in place to P2, back to P1
   recv <tag> <geom> | <polygonal>      => <digit>    MultiPoint/LineString/MultiLineString/Polygon.Within
 
 and prints one verdict per line: `OK <class>`, `DIFF <class> <why>` (implementation ≠ model),
@@ -146,6 +147,20 @@ def judgeRecv (tag : String) (g : BGeom) (pg : Polygonal) (rhs : Tok) : String :
         else s!"OK {cls}"
       | _ => s!"SPEC {cls} implementation-{" ".intercalate rhs}"
 
+/-- call history against one polygon object changed between the calls: every answer is judged for the
+polygon AS IT IS at that call (state 1, state 2, state 1 again) -/
+def judgeHist (flav : String) (lo hi : Int) (p1 p2 : Polygonal) (rhs : Tok) : String :=
+  match rhs with
+  | [d1, d2, d3] =>
+    let steps := [(1, p1, d1), (2, p2, d2), (3, p1, d3)]
+    let bad := steps.filterMap fun (k, pg, d) =>
+      let v := judgeGrid s!"hist-{flav}-call{k}" lo hi 0 pg [d]
+      if v.startsWith "OK" then none else some v
+    match bad with
+    | v :: _ => v
+    | [] => s!"OK hist-{flav}-{shape p1}"
+  | _ => s!"SPEC hist-{flav} implementation-{" ".intercalate rhs}"
+
 def judgeLine (line : String) : String :=
   let (lhs, rhs) := splitArrow (tokens line)
   match lhs with
@@ -162,6 +177,15 @@ def judgeLine (line : String) : String :=
       match polygonalOf g with
       | some pg => judgeGrid tag lo hi ex pg rhs
       | none => "OK skipped-nonfinite"
+    | _, _, _, _ => "BAD parse"
+  | "hist" :: flav :: lo :: hi :: rest =>
+    let g1 := rest.takeWhile (· ≠ "|")
+    let g2 := rest.drop (g1.length + 1)
+    match parseInt lo, parseInt hi, Proto.pGeom 4 g1, Proto.pGeom 4 g2 with
+    | some lo, some hi, some (a, _), some (b, _) =>
+      match polygonalOf a, polygonalOf b with
+      | some p1, some p2 => judgeHist flav lo hi p1 p2 rhs
+      | _, _ => "OK skipped-nonfinite"
     | _, _, _, _ => "BAD parse"
   | "pt" :: tag :: x :: y :: gt =>
     match parseU64 x, parseU64 y, Proto.pGeom 4 gt with
